@@ -10,7 +10,8 @@ RULE = ("CMS: SignedData values made with relic's pkcs7 builder (RSA-2048 PKCS#1
         "type), attribute order / value / added / dropped / stripped / reinterpreted as content, leaf certificate replaced / "
         "preceded / followed by a certificate with the same issuer+serial and another key (issued by the root or by an imitation of "
         "it), dropped, unparsable, re-signed by the attacker under such a certificate, signature value flipped / swapped / emptied / "
-        "made without DigestInfo, eContentType, digest / signature algorithm identifiers, no signer info, duplicated signer info, "
+        "made without DigestInfo, eContentType (with attributes: must be rejected; without: unprotected), properly signed attribute "
+        "lists whose contentType attribute is missing / wrong / multi-valued / not an OID / a malformed OID, digest / signature algorithm identifiers, no signer info, duplicated signer info, "
         "second signer info genuine / damaged / without certificate in either position), re-assembled, and verified by the real "
         "code with a harness-owned root; the Lean model reads the structure from the same DER (C16's walker) and predicts the "
         "outcome class, the reported certificate and signer info. Non-trivial = distinct op.")
@@ -22,7 +23,10 @@ TRUSTED = ["Relic.Model.Cms is hand-written from lib/pkcs7/verify.go, attributes
 ASSUMPTIONS = ["CMS: collision-freeness of the digest on the two streams in question and nothing about the signature scheme "
                "(theorems conclude 'the old signature value verifies over the new bytes / under the new key')",
                "CMS: X.509 path validation is Go's (abstract predicate chainOK); RSA-PSS parameters that do not parse are not exercised",
-               "CMS stated gaps (theorems): eContentType and the contentType attribute are not compared (cms_contenttype_unchecked); "
+               "CMS: since fix F31 the signed contentType attribute must equal the eContentType (cms_contenttype_bound; the code before "
+               "the fix: cms_contenttype_unchecked about verifySignedDataOrig); without authenticated attributes the eContentType is "
+               "covered by nothing and a change is accepted (cms_contenttype_unprotected_without_attrs: PKCS#7 itself, prot=0 op "
+               "`ectype-noattrs`). Remaining stated gaps (theorems): "
                "attribute-less reinterpretation (cms_attr_strip_reinterpretation); with skipDigests and no attributes the signature "
                "value is not examined (cms_skip_noattrs_signature_unverified); an RSA signature without DigestInfo is accepted"]
 
@@ -79,7 +83,7 @@ def predicate(prop, op, il, mres, tag):
     if "wf=0" in tag:
         return ("Relic.Cms.SignerInfo.WF", "wf=1", "digested attribute bytes are not the SET OF encoding of the attribute list")
     if prot == "1" and il.startswith("ok"):
-        thm = {"ectype": "cms_contenttype_unchecked", "attr-reinterpret": "cms_attr_strip_reinterpretation"}.get(
+        thm = {"ectype": "cms_contenttype_bound", "attr-reinterpret": "cms_attr_strip_reinterpretation"}.get(
             mut.split(":", 1)[1], "cms_accept_implies")
         return ("Relic.Props.C02." + thm, "err", "mutation '%s' alters a protected part and the verifier reports success: %s" % (mut, il))
     return None
